@@ -10,7 +10,6 @@ import OpcuaModel.Model.SendHandlers
     lts deliver                      → ok | reject
     lts recv <k>                     → ok | reject
     lts abandon <k> <1|0>            → ok | reject
-    lts sendfail <k>                 → ok | reject
     summary                          → delivered=<k:id:serial,…> dropped=<n> full=<n> counter=<c>
     handler <id>                     → none | <k>
     safeassign <gotType> <wantType>  → ok | err
@@ -31,7 +30,6 @@ def parseLabel : List String → Option Label
   | ["deliver"] => some .deliver
   | ["recv", k] => do let k ← k.toNat?; some (.recv k)
   | ["abandon", k, b] => do let k ← k.toNat?; let b ← parseBool b; some (.abandon k b)
-  | ["sendfail", k] => do let k ← k.toNat?; some (.sendfail k)
   | _ => none
 
 def showDelivered (l : List (Nat × Msg)) : String :=
